@@ -1,6 +1,8 @@
 package drive
 
 import (
+	"github.com/golang/protobuf/proto" //nolint:staticcheck
+	fpb "github.com/anoideaopen/foundation/proto"
 	"encoding/json"
 	"fmt"
 	"strconv"
@@ -77,6 +79,17 @@ func (e *c20ex) Exec(op string) string {
 	case "mk":
 		e.n++
 		return okErr(e.c.Do(wd.Users[0], "channelTransferByCustomer", arg(1), "CC", "VT", "1"))
+	case "mkbin":
+		// a record written by an early version of the library: binary protobuf instead of JSON
+		// (channelTransferFrom and the robot functions still read it)
+		e.n++
+		k := fromPrefix + arg(1)
+		if len(e.c.L.State[k]) != 0 {
+			return "err"
+		}
+		b, _ := proto.Marshal(&fpb.CCTransfer{Id: arg(1), From: "VT", To: "CC", Token: "VT", User: wd.Users[0].AddrRaw, Amount: []byte{1}, ForwardDirection: true})
+		e.c.L.State[k] = b
+		return "ok"
 	case "commit":
 		return okErr(e.c.RobotNB("commitCCTransferFrom", arg(1)))
 	case "cancel":
@@ -223,6 +236,22 @@ func genC20(c *Cfg, emit func([]string)) {
 				h = append(h, "get "+id, "list 2 "+fromPrefix+id)
 			}
 		}
+		emit(h)
+	}
+	// records in the old binary encoding between JSON ones
+	for i := 0; i < 6; i++ {
+		h := []string{"reset"}
+		var ids []string
+		for j := 0; j < 3+c.Rng.Intn(5); j++ {
+			id := fmt.Sprintf("%c%d", 'a'+rune(c.Rng.Intn(4)), j)
+			ids = append(ids, id)
+			if c.Rng.Intn(2) == 0 {
+				h = append(h, "mkbin "+id, "get "+id)
+			} else {
+				h = append(h, "mk "+id)
+			}
+		}
+		h = append(h, "walk 1", "walk 2", "walk 3", "walk 100", "commit "+ids[0], "del "+ids[0], "walk 2")
 		emit(h)
 	}
 	// ids that a path-cleaning key constructor would rewrite (".", "..", inner "..", trailing or
